@@ -109,6 +109,9 @@ pub struct Case {
     /// hand every batch to the learner as a column-major (Fortran-order) array
     #[serde(default)]
     pub colmajor: bool,
+    /// hand every batch to the learner as a non-contiguous VIEW (every second row of a buffer)
+    #[serde(default)]
+    pub strided: bool,
     /// multiply the FTRL features by this (large values saturate the predicted probabilities)
     #[serde(default)]
     pub x_scale: f64,
@@ -520,6 +523,24 @@ fn batch_records<F: Fl>(c: &Case, d: &Data, a: usize, b: usize) -> Array2<F> {
         v.mapv(F::of64)
     }
 }
+/// buffer from which `batch_view` takes the batch: the batch itself, or the batch interleaved
+/// with junk rows when the case asks for a strided view
+fn batch_buffer<F: Fl>(c: &Case, d: &Data, a: usize, b: usize) -> Array2<F> {
+    let x = batch_records::<F>(c, d, a, b);
+    if !c.strided {
+        return x;
+    }
+    let mut buf = Array2::<F>::from_elem((2 * (b - a), c.d), F::of64(-777.0));
+    buf.slice_mut(ndarray::s![..;2, ..]).assign(&x);
+    buf
+}
+fn batch_view<'a, F: Fl>(c: &Case, buf: &'a Array2<F>) -> ndarray::ArrayView2<'a, F> {
+    if c.strided {
+        buf.slice(ndarray::s![..;2, ..])
+    } else {
+        buf.view()
+    }
+}
 fn cast2<F: Fl>(a: &Array2<f64>) -> Array2<F> {
     a.mapv(F::of64)
 }
@@ -581,7 +602,8 @@ impl<F: Fl> Sut for NbSut<F> {
             _ => return Err("naive Bayes only takes Fit operations".into()),
         };
         let (a, b) = d.batches[j];
-        let x: Array2<F> = batch_records::<F>(c, d, a, b);
+        let xbuf: Array2<F> = batch_buffer::<F>(c, d, a, b);
+        let x = batch_view(c, &xbuf);
         let present: std::collections::BTreeSet<usize> = d.y[a..b].iter().copied().collect();
         if present.len() < c.k {
             out.class_missing_batches += 1;
@@ -935,7 +957,8 @@ impl<F: Fl> Sut for KmSut<F> {
             _ => return Err("k-means only takes Fit operations".into()),
         };
         let (a, b) = d.batches[j];
-        let ds = DatasetBase::from(batch_records::<F>(c, d, a, b));
+        let xbuf: Array2<F> = batch_buffer::<F>(c, d, a, b);
+        let ds = DatasetBase::from(batch_view(c, &xbuf));
         let rng = Xoshiro256Plus::seed_from_u64(c.data_seed);
         macro_rules! step {
             ($dist:expr, $prev:expr, $wrap:path) => {{
@@ -1115,10 +1138,12 @@ impl<F: Fl> Sut for FtrlSut<F> {
             .l2_ratio(F::of64(c.hyper.ftrl_l2))
             .check()
             .map_err(|e| e.to_string())?;
-        let batch = |j: usize| {
-            let (a, b) = d.batches[j];
-            DatasetBase::new(batch_records::<F>(c, d, a, b), Array1::from(d.yb[a..b].to_vec()))
+        let jb = match *op {
+            Op::Fit(j) | Op::Predict(j) | Op::Update(j) => j,
         };
+        let (ja, jbnd) = d.batches[jb];
+        let xbuf: Array2<F> = batch_buffer::<F>(c, d, ja, jbnd);
+        let batch = |_j: usize| DatasetBase::new(batch_view(c, &xbuf), Array1::from(d.yb[ja..jbnd].to_vec()));
         match *op {
             Op::Fit(j) => {
                 let m = params.fit_with(m.map(|m| m.0), &batch(j)).map_err(|e| e.to_string())?;
@@ -1208,7 +1233,8 @@ impl<F: Fl> Sut for FtrlSut<F> {
                 };
                 let (a, b) = d.batches[j];
                 // same values AND same memory layout as the batch the learner was given
-                let ds = DatasetBase::new(batch_records::<F>(c, d, a, b), Array1::from(d.yb[a..b].to_vec()));
+                let xbuf: Array2<F> = batch_buffer::<F>(c, d, a, b);
+                let ds = DatasetBase::new(batch_view(c, &xbuf), Array1::from(d.yb[a..b].to_vec()));
                 let probs = twin.predict(ds.records());
                 twin.update(&ds, probs.view());
                 if let Some(i) = (0..c.d).find(|&i| twin.z()[i].bits64() != now.z()[i].bits64() || twin.n()[i].bits64() != now.n()[i].bits64()) {
@@ -1310,7 +1336,7 @@ fn fault_env(r: &mut Prng, pool: bool) -> Env {
 }
 
 pub fn gen_case(r: &mut Prng, learner: Learner, big: bool) -> Case {
-    let k = r.usize_in(2, if learner == Learner::KMeans { 4 } else { 6 });
+    let k = if matches!(learner, Learner::Gnb | Learner::Mnb) && r.chance(0.05) { 1 } else { r.usize_in(2, if learner == Learner::KMeans { 4 } else { 6 }) };
     let d = r.usize_in(1, 8);
     // every eighth k-means history has batches of several hundred rows (parallel loops split)
     let huge = learner == Learner::KMeans && r.chance(0.125);
@@ -1418,6 +1444,7 @@ pub fn gen_case(r: &mut Prng, learner: Learner, big: bool) -> Case {
         offset: 0.0,
         f32: false,
         colmajor: r.chance(0.25),
+        strided: r.chance(0.2),
         x_scale: if learner == Learner::Ftrl && r.chance(0.3) { *r.pick(&[8.0, 30.0, 100.0]) } else { 0.0 },
     }
     .with_precision(r, learner)
